@@ -10,6 +10,9 @@ Translated on every run from the CURRENT source of quara/objects/qoperation.py, 
 The translation is a transcription: each statement becomes an environment transformer, each expression a value term;
 the meaning of every operator on every shape of value is defined in Coq (C05_PySem.v), not here.  Accepted subset
 (anything else raises Unsupported: the tie is reported broken, never silently skipped):
+  closures    func_calc_proj_physical / func_calc_proj_physical_with_var:  <statements>; def inner(<params>): <statements>; return inner  -
+              one call of the returned function is translated (outer statements, then the inner ones, in one frame; inner parameters are
+              additional parameters of the generated definition); `local.method(args)` as a statement = oracle "<method>!" returning the updated object;
   statements  docstring; `a = b = <expr>`; `(a, b) = <expr>`; `name.attr = <expr>` (becomes an oracle call "setattr.attr");
               `if` / `else`; `if <cond>: ... return` followed by more statements (the rest becomes the else branch);
               `return <expr>` in tail position only; ONE `for x in range(<expr>):` per function whose body may end in
@@ -28,7 +31,12 @@ import ast, sys, os
 
 TRANSLATED = ["_calc_stopping_criterion_birgin_raydan_vectors", "_calc_stopping_criterion_birgin_raydan2_vectors",
               "_is_satisfied_stopping_criterion_birgin_raydan_vectors", "_is_satisfied_stopping_criterion_birgin_raydan_qoperations",
-              "calc_proj_physical", "calc_proj_physical_with_var"]
+              "calc_proj_physical", "calc_proj_physical_with_var",
+              "func_calc_proj_physical", "func_calc_proj_physical_with_var"]
+# closures: the method body is  <statements>; def inner(<params>): <statements>; return inner .  What is translated is ONE call of the
+# returned function: the outer statements followed by the inner ones in the same frame (the inner function reads the outer locals;
+# nothing is re-bound in between), with the inner parameters as additional parameters of the generated definition.
+CLOSURES = {"func_calc_proj_physical", "func_calc_proj_physical_with_var"}
 
 
 NUMBER = {"$err": 1, "$printed": 2, "$break": 3, "$ret": 4}     # filled in main(): name -> positive, by first occurrence
@@ -84,6 +92,18 @@ class Fn:
         self.f = fdef
         self.known = known          # translated methods: name -> number of parameters without self
         self.params = [a.arg for a in fdef.args.args]
+        self.inner = None
+        if fdef.name in CLOSURES:
+            b = [st for st in fdef.body if not (isinstance(st, ast.Expr) and isinstance(st.value, ast.Constant))]
+            if not (len(b) >= 2 and isinstance(b[-2], ast.FunctionDef) and isinstance(b[-1], ast.Return)
+                    and isinstance(b[-1].value, ast.Name) and b[-1].value.id == b[-2].name):
+                fail(fdef, "closure method is not  <statements>; def inner(...); return inner")
+            self.inner = b[-2]
+            ia = self.inner.args
+            if ia.vararg or ia.kwarg or ia.kwonlyargs or ia.posonlyargs or ia.defaults or self.inner.decorator_list:
+                fail(self.inner, "unsupported inner signature")
+            self.outer_body = b[:-2]
+            self.params = self.params + [a.arg for a in ia.args]
         if not self.params or self.params[0] != "self":
             fail(fdef, "first parameter is not self")
         if fdef.args.vararg or fdef.args.kwarg or fdef.args.kwonlyargs or fdef.args.posonlyargs:
@@ -95,13 +115,15 @@ class Fn:
                         key=lambda n: (n.lineno, n.col_offset))
         self.locals = []            # local variables in the order of their first assignment (source position): alpha-robust identity
         for node in stores:
+            if self.inner is not None and node.id == self.inner.name:
+                continue
             self.vars.add(node.id)
             if node.id not in self.params and node.id not in self.locals:
                 self.locals.append(node.id)
         for node in ast.walk(fdef):
             if isinstance(node, (ast.FunctionDef, ast.Lambda, ast.ListComp, ast.GeneratorExp, ast.DictComp, ast.SetComp, ast.While,
                                  ast.Try, ast.With, ast.Global, ast.Nonlocal, ast.Delete, ast.AugAssign, ast.NamedExpr, ast.Continue,
-                                 ast.Yield, ast.YieldFrom, ast.Await, ast.Starred, ast.IfExp)) and node is not fdef:
+                                 ast.Yield, ast.YieldFrom, ast.Await, ast.Starred, ast.IfExp)) and node is not fdef and node is not self.inner:
                 fail(node, "construct outside the subset")
 
     # ------------------------------------------------------------ expressions
@@ -297,6 +319,16 @@ class Fn:
                     nm_ = c.func.value.id
                     out.append('%ss_assign %s (fun e => v_append (e %s) %s)' % (pad, nm(nm_), nm(nm_), self.expr(c.args[0])))
                     i += 1; continue
+                if (isinstance(c.func, ast.Attribute) and isinstance(c.func.value, ast.Name) and c.func.value.id not in ("self", "np", "logger", "logging")):
+                    # a method called for its effect on a LOCAL object: the oracle "<m>!" returns the updated object
+                    nm_ = c.func.value.id
+                    kws = sorted(c.keywords, key=lambda k: k.arg or "")
+                    if any(k.arg is None for k in kws):
+                        fail(st, "**kwargs")
+                    name = "." + c.func.attr + "!" + ("|" + ",".join(k.arg for k in kws) if kws else "")
+                    args = [self.expr(a) for a in c.args] + [self.expr(k.value) for k in kws]
+                    out.append('%ss_assign %s (fun e => oracle "%s" [%s])' % (pad, nm(nm_), name, "; ".join(["e " + nm(nm_)] + args)))
+                    i += 1; continue
                 fail(st, "expression statement outside the subset")
             fail(st, "statement outside the subset")
         if not out:
@@ -304,7 +336,12 @@ class Fn:
         return "%s(seq [\n%s])" % ("  " * (ind - 1), ";\n".join(out))
 
     def emit(self):
-        body = self.block(self.f.body, 1, False, True)
+        if self.inner is not None:
+            b1 = self.block(self.outer_body, 2, False, False)
+            b2 = self.block(self.inner.body, 2, False, True)
+            body = "(seq [\n%s;\n%s])" % (b1, b2)
+        else:
+            body = self.block(self.f.body, 1, False, True)
         name = self.f.name
         ps = self.params
         lines = []
